@@ -105,7 +105,7 @@ theorem C10_history_spec (w : World) (s0 : VmState) (ops : List Op) :
     specification, or returns an error -/
 theorem C10_exec_runs_current (w : World) (s : VmState) (hinv : VmInv w s) (o : Op)
     (ho : o = .exec ∨ o = .execJit ∨ o = .execClif) (p : Bytes) (h : List (Nat × Nat))
-    (f : Option (Nat × Nat)) (hr : (step w s o).2 = .ran p h f) : s.prog = some p := by
+    (f : Option (Nat × Nat)) (eng : Nat) (cal : Option Nat) (hr : (step w s o).2 = .ran eng p h f cal) : s.prog = some p := by
   obtain ⟨_, h2, h3⟩ := hinv
   rcases ho with rfl | rfl | rfl <;> simp only [step] at hr <;> split at hr
   · cases hr; assumption
@@ -172,8 +172,8 @@ open C10Ex in
 /-- outputs of the history: the failed load of `pBad` changes nothing (`pA` and its compiled code keep
     running), the successful load of `pB` drops the compiled code -/
 example : (runOps w s0 hist).2 =
-    [.err, .ok, .ok, .ran pA [] none, .err, .ran pA [] none, .ran pA [] none,
-     .ok, .ran pB [] none, .err, .ok, .ok, .ran pB [(7, 70)] none, .ran pB [(7, 70)] none] := by decide
+    [.err, .ok, .ok, .ran 1 pA [] none none, .err, .ran 0 pA [] none none, .ran 1 pA [] none none,
+     .ok, .ran 0 pB [] none none, .err, .ok, .ok, .ran 2 pB [(7, 70)] none none, .ran 0 pB [(7, 70)] none none] := by decide
 open C10Ex in
 example : (runOps w s0 hist).1 =
     { prog := some pB, verifier := 0, jit := none, clif := some ⟨pB, [(7, 70)]⟩, helpers := [(7, 70)],
@@ -184,11 +184,11 @@ open C10Ex in
 /-- a failed set_verifier keeps the old verifier; a successful one then lets the short program in -/
 example : (runOps w s0 [.setVerifier 2, .setProgram pA none, .setVerifier 2, .setProgram pBad none, .setVerifier 1,
       .setProgram pBad none, .setVerifier 0, .exec]).2 =
-    [.ok, .err, .ok, .err, .ok, .ok, .err, .ran pBad [] none] := by decide
+    [.ok, .err, .ok, .err, .ok, .ok, .err, .ran 0 pBad [] none none] := by decide
 open C10Ex in
 /-- fixed-metadata VM: offsets are replaced only by a successful load -/
 example : (runOps w { s0 with fixed := some (0, 8) }
       [.setProgram pBad (some (16, 24)), .setProgram pA (some (32, 40)), .exec]).2 =
-    [.err, .ok, .ran pA [] (some (32, 40))] := by decide
+    [.err, .ok, .ran 0 pA [] (some (32, 40)) none] := by decide
 
 end Rbpf
